@@ -30,10 +30,50 @@ pub struct CW(pub u32);
 impl Modeled for CW {
 	fn ty() -> Ty { Ty::Struct { name: "CW".into(), fields: vec![Field { ty: Ty::U(32), skip: false }] } }
 	fn from_val(v: &Val) -> Self { CW(v.as_tuple()[0].as_u() as u32) }
-	fn to_val(&self) -> Val { Val::Tuple(vec![Val::U(u128::from(self.0))]) }
+	fn to_val(&self) -> Val { Val::Tuple(vec![Val::U(self.0 as u128)]) }
 }
 impl CompactModel for CW {
 	fn compact_ty() -> Ty { Ty::Struct { name: "Compact<CW>".into(), fields: vec![Field { ty: Ty::Compact(32), skip: false }] } }
+}
+#[derive(Encode, Decode, DecodeWithMemTracking, CompactAs, MaxEncodedLen, Clone, Debug, PartialEq, Eq, Default)]
+pub struct CW8(pub u8);
+impl Modeled for CW8 {
+	fn ty() -> Ty { Ty::Struct { name: "CW8".into(), fields: vec![Field { ty: Ty::U(8), skip: false }] } }
+	fn from_val(v: &Val) -> Self { CW8(v.as_tuple()[0].as_u() as u8) }
+	fn to_val(&self) -> Val { Val::Tuple(vec![Val::U(self.0 as u128)]) }
+}
+impl CompactModel for CW8 {
+	fn compact_ty() -> Ty { Ty::Struct { name: "Compact<CW8>".into(), fields: vec![Field { ty: Ty::Compact(8), skip: false }] } }
+}
+#[derive(Encode, Decode, DecodeWithMemTracking, CompactAs, MaxEncodedLen, Clone, Debug, PartialEq, Eq, Default)]
+pub struct CW16(pub u16);
+impl Modeled for CW16 {
+	fn ty() -> Ty { Ty::Struct { name: "CW16".into(), fields: vec![Field { ty: Ty::U(16), skip: false }] } }
+	fn from_val(v: &Val) -> Self { CW16(v.as_tuple()[0].as_u() as u16) }
+	fn to_val(&self) -> Val { Val::Tuple(vec![Val::U(self.0 as u128)]) }
+}
+impl CompactModel for CW16 {
+	fn compact_ty() -> Ty { Ty::Struct { name: "Compact<CW16>".into(), fields: vec![Field { ty: Ty::Compact(16), skip: false }] } }
+}
+#[derive(Encode, Decode, DecodeWithMemTracking, CompactAs, MaxEncodedLen, Clone, Debug, PartialEq, Eq, Default)]
+pub struct CW64(pub u64);
+impl Modeled for CW64 {
+	fn ty() -> Ty { Ty::Struct { name: "CW64".into(), fields: vec![Field { ty: Ty::U(64), skip: false }] } }
+	fn from_val(v: &Val) -> Self { CW64(v.as_tuple()[0].as_u() as u64) }
+	fn to_val(&self) -> Val { Val::Tuple(vec![Val::U(self.0 as u128)]) }
+}
+impl CompactModel for CW64 {
+	fn compact_ty() -> Ty { Ty::Struct { name: "Compact<CW64>".into(), fields: vec![Field { ty: Ty::Compact(64), skip: false }] } }
+}
+#[derive(Encode, Decode, DecodeWithMemTracking, CompactAs, MaxEncodedLen, Clone, Debug, PartialEq, Eq, Default)]
+pub struct CW128(pub u128);
+impl Modeled for CW128 {
+	fn ty() -> Ty { Ty::Struct { name: "CW128".into(), fields: vec![Field { ty: Ty::U(128), skip: false }] } }
+	fn from_val(v: &Val) -> Self { CW128(v.as_tuple()[0].as_u() as u128) }
+	fn to_val(&self) -> Val { Val::Tuple(vec![Val::U(self.0 as u128)]) }
+}
+impl CompactModel for CW128 {
+	fn compact_ty() -> Ty { Ty::Struct { name: "Compact<CW128>".into(), fields: vec![Field { ty: Ty::Compact(128), skip: false }] } }
 }
 "#;
 
